@@ -54,3 +54,14 @@ Print Assumptions C08_file_truncate_refines.
 Theorem C08_init_good : forall mb, 1 <= mb -> Good mb (fs_init (Conc mb)).
 Proof. exact Good_init. Qed.
 Print Assumptions C08_init_good.
+
+(* ... and the premises are also met by every collection loaded from a manifest (the table's
+   locators are assumed to state the true block sizes), so C08_step_refines applies to it *)
+From Coq Require Import Ascii String.
+From AV Require Import model.CFS_bg model.CFS_run proofs.CFS_load_proofs.
+Theorem C08_loaded_good : forall mb, 1 <= mb -> forall tab,
+  (forall d l n rest h, In (d, l) tab -> splitn3 "+"%char l = h :: n :: rest ->
+     forall k, parse_dec n = Some k -> k = List.length d) ->
+  forall txt s, b_load mb tab txt = Ok s -> Good mb s.
+Proof. intros mb Hmb tab Htab txt s Hl. exact (proj1 (b_load_good mb Hmb (map fst tab) tab eq_refl Htab txt s Hl)). Qed.
+Print Assumptions C08_loaded_good.
